@@ -686,6 +686,8 @@ def h_loader(H):
             ldr = SObj(WE.WaveformsLoader, data_version=2, traces=traces, channels=chans, df_wav=table, df_clusters=None)
             wfs, info, ch = run_function(it, WE.WaveformsLoader.load_waveforms, [ldr], {"labels": labels, "indices": indices})
             tag = f"indices{with_indices}"
+            it.ctx.oblige(f"loader.returns_copies.{tag}", z3.BoolVal(not A.shares_memory(wfs, traces) and not A.shares_memory(ch, chans)), "post",
+                          "what the loader returns does not share memory with the saved (memory-mapped) arrays: post-processing a result in place cannot rewrite the files")
             ml = getattr(it.ctx, "member_log", [])
             wl = [w_ for w_ in it.ctx.where_log if w_["ndim"] == 1]
             if len(ml) != (2 if with_indices else 1) or not wl:
